@@ -121,6 +121,24 @@ def collect(v, tier, rnd, h, d, prop):
         if rc != 0:
             raise common.harness_failure(txt)
         res = {r["id"]: r for r in common.read_ndjson(out)}
+        # Def() of every object through every handle kind the low level API gives out (Table, Index, and the *Index of a
+        # WITHOUT ROWID table, whose text is a CREATE TABLE): a parsed statement or an error, never a panic
+        dops = []
+        for a_, _, _, _ in rows:
+            dops.append({"op": "index_def" if a_["wr"] else "table_def", "table": a_["name"], "id": len(dops)})
+            dops.append({"op": "table_def" if a_["wr"] else "index_def", "table": a_["name"], "id": len(dops)})     # the wrong kind
+            for x_ in a_["idx"]:
+                dops.append({"op": "index_def", "index": x_["name"], "id": len(dops)})
+        fq, fo = os.path.join(d, "freq%d.ndjson" % fileno), os.path.join(d, "fres%d.ndjson" % fileno)
+        common.write_ndjson(fq, [{"db": path, "mode": "keep", "ops": dops}])
+        rc, txt, _ = common.run([h, "ops", fq, fo], timeout=600)
+        if rc != 0:
+            raise common.harness_failure(txt)
+        for r_ in common.read_ndjson(fo):
+            if r_.get("panic"):
+                o_ = dops[r_["id"]]
+                v.report("%s:def-panic:%s" % (prop, o_["op"]), "%s on %s panicked: %s" % (o_["op"], o_.get("table") or o_.get("index"), r_["panic"]),
+                         lambda o_=o_: common.write_replay(prop, "def-panic-%s.json" % (o_.get("table") or o_.get("index")), {"op": o_, "db": "a database holding the definition in question"}))
         if datarows:
             dreq, dout = os.path.join(d, "dreq%d.ndjson" % fileno), os.path.join(d, "dres%d.ndjson" % fileno)
             order = sorted(datarows)
